@@ -256,8 +256,14 @@ func (w *world) apply(a *Action) (ok bool) {
 		// the sink compares time.Since(LastCreated) with MaxDuration somewhere inside this call.
 		lc := w.fs.LastCreated
 		before := time.Since(lc)
+		t0 := time.Now()
 		_, err := w.fs.Process(context.Background(), e)
 		after := time.Since(lc)
+		if w.cfg.DurOn && lc.IsZero() && !a.Texp && time.Since(t0) >= MaxDur {
+			// the file was created inside this call; the call itself took longer than MaxDuration (a stalled
+			// machine), so the sink may have found its brand-new file expired
+			w.skip = true
+		}
 		if w.cfg.DurOn && !lc.IsZero() {
 			if a.Texp && before <= MaxDur {
 				w.skip = true // the model says "elapsed", the clock cannot confirm it
